@@ -136,8 +136,30 @@ fn interpret(resp: Result<Resp, String>) -> Exec {
     }
 }
 
-pub fn exec_kind(w: &mut WorkerHandle, kind: &ReplayKind, render: bool, budget_ms: u32) -> Exec {
+/// Watchdog kills and worker deaths that a second execution of the same case (in a fresh worker) did not show again:
+/// the machine, not the code, was the cause (a frozen or overloaded host charges the running process with CPU time).
+pub static UNREPRODUCED_WATCHDOGS: AtomicU64 = AtomicU64::new(0);
+
+fn environment_sensitive(assertion: &str) -> bool {
+    assertion == "diverges" || assertion == "resource-exhaustion" || assertion == "crash"
+}
+
+/// Executes the case; a watchdog kill or a worker death counts only if it happens again on a second execution.
+fn exec_twice(w: &mut WorkerHandle, kind: &ReplayKind, render: bool, budget_ms: u32) -> Exec {
     match exec_kind_(w, kind, render, budget_ms) {
+        Exec::Fail { assertion, .. } if environment_sensitive(&assertion) => match exec_kind_(w, kind, render, budget_ms) {
+            Exec::Fail { assertion: a2, message, rendering } if environment_sensitive(&a2) => Exec::Fail { assertion: a2, message, rendering },
+            other => {
+                UNREPRODUCED_WATCHDOGS.fetch_add(1, Ordering::SeqCst);
+                other
+            }
+        },
+        e => e,
+    }
+}
+
+pub fn exec_kind(w: &mut WorkerHandle, kind: &ReplayKind, render: bool, budget_ms: u32) -> Exec {
+    match exec_twice(w, kind, render, budget_ms) {
         Exec::Fail { assertion, message, rendering } if rendering.is_empty() => {
             let rendering = match kind {
                 ReplayKind::Tape { tape, avoid } => w.render_tape(tape, *avoid),
@@ -240,7 +262,15 @@ fn random_lane(id: &str, tier: Tier, lane: usize, seed: u64, cases: u32, tape_ma
         let n = r.evaluated;
         let render = !shrinking && (n < 48 || n % 97 == 0);
         let budget = if shrinking { cpu_ms.min(2000) } else { cpu_ms };
-        let e = interpret(worker.borrow_mut().run_tape(&tape, avoid, render, budget));
+        let mut e = interpret(worker.borrow_mut().run_tape(&tape, avoid, render, budget));
+        if !shrinking && matches!(&e, Exec::Fail { assertion, .. } if environment_sensitive(assertion)) {
+            // a watchdog kill or worker death counts only if it happens again
+            let again = interpret(worker.borrow_mut().run_tape(&tape, avoid, render, budget));
+            if !matches!(&again, Exec::Fail { assertion, .. } if environment_sensitive(assertion)) {
+                UNREPRODUCED_WATCHDOGS.fetch_add(1, Ordering::SeqCst);
+                e = again;
+            }
+        }
         if shrinking {
             r.shrink_evals += 1;
         } else {
@@ -472,7 +502,18 @@ fn run_space(id: &str, tier: Tier, space: usize, name: &str, size: u64, cpu_ms: 
                 let start = b * BATCH;
                 let end = (start + BATCH).min(size);
                 let render = b == 0 || b == nbatches / 2 || b + 1 == nbatches || b % 199 == 0;
-                let resp = w.run_enum(space, start, end, render, cpu_ms);
+                let mut resp = w.run_enum(space, start, end, render, cpu_ms);
+                // a watchdog kill counts only if the single case shows it again; otherwise the batch is run again
+                for _ in 0..3 {
+                    let Ok(Resp::Watchdog(_, idx)) = &resp else { break };
+                    match w.run_enum(space, *idx, *idx + 1, false, cpu_ms) {
+                        Ok(Resp::Batch(_, None)) => {
+                            UNREPRODUCED_WATCHDOGS.fetch_add(1, Ordering::SeqCst);
+                            resp = w.run_enum(space, start, end, render, cpu_ms);
+                        }
+                        _ => break,
+                    }
+                }
                 let mut viol: Option<(u64, String, String, String)> = None;
                 match resp {
                     Err(e) => {
@@ -967,6 +1008,11 @@ pub fn run_main(id: &str, tier: Tier) -> i32 {
         for l in &unseen {
             println!("WARNING: generator health: no case with label {:?} was produced in this run", l);
         }
+    }
+    let unrep = UNREPRODUCED_WATCHDOGS.load(Ordering::SeqCst);
+    if unrep > 0 {
+        ev.extra.insert("watchdog_kills_not_reproduced_on_second_execution".into(), json!(unrep));
+        println!("NOTE: {} watchdog kill(s) / worker death(s) did not happen again when the case was executed a second time; they are not counted (host load)", unrep);
     }
     if inner > 0 {
         ev.extra.insert("inner_evaluations".into(), json!(inner));
